@@ -50,6 +50,13 @@ type opCtx struct {
 	lockDepth int     // locks held by library code of this operation (instrumented build)
 	async     bool    // the library ran part of this operation in goroutines of its own
 	parent    *opCtx  // the context this one is merged into (goroutines the library started)
+	// the evaluation in progress, for a user function that calls it again (recurse callback)
+	selfExpr *fhirpath.Expression
+	selfRes  []fhir.Resource
+	selfOpts []fhirpath.EvaluateOption
+	depth    int
+	nestedN  int
+	nested   []string // outcome (by value) of every nested evaluation of the same expression
 }
 
 // top is the context of the operation itself (contexts of library goroutines are linked to it).
@@ -625,6 +632,38 @@ func callback(key string) (any, error) {
 			}
 			return in, nil
 		}, nil
+	case "recurse":
+		// A user function that calls the very evaluation it is part of: the same compiled expression
+		// on the same input with the same options, nested up to a depth of its own choosing (a bounded,
+		// legitimate recursion: beyond that depth it is the identity). It answers its input, so every
+		// nested evaluation computes what the outermost one computes.
+		maxDepth, err := strconv.Atoi(arg)
+		if err != nil || maxDepth < 1 {
+			return nil, fmt.Errorf("bad recursion depth %q", arg)
+		}
+		return func(in system.Collection) (system.Collection, error) {
+			_, oc := cbEnter("recurse")
+			if oc == nil {
+				return in, nil
+			}
+			oc = oc.top()
+			if oc.selfExpr == nil || oc.depth >= maxDepth || oc.nestedN >= 24 {
+				return in, nil
+			}
+			oc.depth++
+			oc.nestedN++
+			savedSet, savedNow := oc.nowSet, oc.now
+			oc.nowSet = false
+			out, err := oc.selfExpr.Evaluate(oc.selfRes, oc.selfOpts...)
+			oc.nowSet, oc.now = savedSet, savedNow
+			oc.depth--
+			if err != nil {
+				oc.nested = append(oc.nested, canonErr(err))
+			} else {
+				oc.nested = append(oc.nested, "ok:"+valueDigest(out))
+			}
+			return in, nil
+		}, nil
 	case "fail":
 		k, err := strconv.Atoi(arg)
 		if err != nil || k < 0 || k >= len(injected) {
@@ -1043,6 +1082,9 @@ type opResult struct {
 	NowBad  bool // ctx.Now was not one value across the node entries of this op
 	Async   bool // the library ran part of the operation in goroutines of its own
 	Repeat  string // evalmut: the repeated call after the caller edited its result differs
+	Nested  []string // outcomes (by value) of nested evaluations of the same expression (recurse callback)
+
+	finalByValue string
 
 	probeList []string
 	Probes  string
@@ -1105,15 +1147,24 @@ func execOp(op *Op, oc *opCtx, p *compiled, in0 *inputs, entryOverride *time.Tim
 	in := pickResources(op, resources)
 	switch op.Kind {
 	case "eval":
+		if oc != nil {
+			oc.selfExpr, oc.selfRes, oc.selfOpts = p.fp, in, opts
+		}
 		c, err := p.fp.Evaluate(in, opts...)
 		if err != nil {
 			res.Outcome = canonErr(err)
 			if c != nil {
 				res.Outcome += "+" + canonCollection(idx, c)
 			}
+			res.finalByValue = canonErr(err)
 		} else {
 			res.Outcome = canonCollection(idx, c)
 			res.raw = c
+			res.finalByValue = "ok:" + valueDigest(c)
+		}
+		if oc != nil {
+			oc.selfExpr = nil
+			res.Nested = oc.nested
 		}
 	case "bool":
 		v, err := p.fp.EvaluateAsBool(in, opts...)
